@@ -423,7 +423,7 @@ def resize_rows(cols, rows, new_rows, crow, props, sb=1, alt=0, limit="Some(1)",
 for (rows, new, crow, sb) in ((3, 2, 2, 1), (3, 2, 0, 1), (2, 3, 1, 1), (2, 3, 0, 0), (1, 3, 0, 2), (3, 1, 1, 0), (3, 1, 2, 1), (3, 1, 0, 1),
                               (2, 2, 1, 1), (3, 2, 1, 0), (2, 4, 1, 1), (4, 2, 1, 0), (4, 2, 3, 1), (1, 2, 0, 0), (2, 1, 0, 1), (2, 1, 1, 1)):
     quick = (rows, new, crow, sb) in ((3, 2, 2, 1), (3, 2, 0, 1), (2, 3, 1, 1), (1, 3, 0, 2), (3, 1, 1, 0), (2, 4, 1, 1))
-    resize_rows(2, rows, new, crow, {"C10": Q if quick else T, "C02": Q if (rows, new, crow) in ((3, 2, 0), (2, 3, 1)) else T, "C13": T, "C17": Q if (rows, new, crow) == (3, 1, 1) else T,
+    resize_rows(2, rows, new, crow, {"C10": Q if quick else T, "C02": Q if (rows, new, crow) in ((3, 2, 0), (2, 3, 1)) else T, "C13": Q if (rows, new, crow, sb) == (3, 2, 2, 1) else T, "C17": Q if (rows, new, crow) == (3, 1, 1) else T,
                                       "C15": Q if (rows, new, crow) == (2, 3, 1) else T, "C05": T, "C06": T, "C01": Q if (rows, new) in ((1, 3), (3, 1)) and quick else T}, sb=sb)
 resize_rows(2, 3, 2, 1, {"C16": Q, "C02": T, "C10": T}, sb=0, alt=1, parked=(3, 1), suffix="_parked3")
 resize_rows(2, 2, 3, 1, {"C16": Q, "C02": T}, sb=0, alt=1, parked=(2, 1), suffix="_parked2")
